@@ -64,22 +64,32 @@ func (mem *Memory) Name() string {
 func (mem *Memory) Get(key string) (*rspb.Release, error) {
 	defer unlock(mem.rlock())
 
-	keyWithoutPrefix := strings.TrimPrefix(key, "sh.helm.release.v1.")
-	switch elems := strings.Split(keyWithoutPrefix, ".v"); len(elems) {
-	case 2:
-		name, ver := elems[0], elems[1]
-		if _, err := strconv.Atoi(ver); err != nil {
-			return nil, ErrInvalidKey
-		}
-		if recs, ok := mem.cache[mem.namespace][name]; ok {
-			if r := recs.Get(key); r != nil {
-				return r.rls, nil
-			}
-		}
-		return nil, ErrReleaseNotFound
-	default:
-		return nil, ErrInvalidKey
+	name, err := releaseNameFromKey(key)
+	if err != nil {
+		return nil, err
 	}
+	if recs, ok := mem.cache[mem.namespace][name]; ok {
+		if r := recs.Get(key); r != nil {
+			return r.rls, nil
+		}
+	}
+	return nil, ErrReleaseNotFound
+}
+
+// releaseNameFromKey splits a key of the form
+// "sh.helm.release.v1.<name>.v<version>" at its last ".v": a release name
+// may itself contain ".v" (for example "a.vb").
+func releaseNameFromKey(key string) (string, error) {
+	keyWithoutPrefix := strings.TrimPrefix(key, "sh.helm.release.v1.")
+	i := strings.LastIndex(keyWithoutPrefix, ".v")
+	if i < 0 {
+		return "", ErrInvalidKey
+	}
+	name, ver := keyWithoutPrefix[:i], keyWithoutPrefix[i+len(".v"):]
+	if _, err := strconv.Atoi(ver); err != nil {
+		return "", ErrInvalidKey
+	}
+	return name, nil
 }
 
 // List returns the list of all releases such that filter(release) == true
@@ -199,16 +209,9 @@ func (mem *Memory) Update(key string, rls *rspb.Release) error {
 func (mem *Memory) Delete(key string) (*rspb.Release, error) {
 	defer unlock(mem.wlock())
 
-	keyWithoutPrefix := strings.TrimPrefix(key, "sh.helm.release.v1.")
-	elems := strings.Split(keyWithoutPrefix, ".v")
-
-	if len(elems) != 2 {
-		return nil, ErrInvalidKey
-	}
-
-	name, ver := elems[0], elems[1]
-	if _, err := strconv.Atoi(ver); err != nil {
-		return nil, ErrInvalidKey
+	name, err := releaseNameFromKey(key)
+	if err != nil {
+		return nil, err
 	}
 	if _, ok := mem.cache[mem.namespace]; ok {
 		if recs, ok := mem.cache[mem.namespace][name]; ok {
